@@ -54,6 +54,8 @@ def run_paths(ctx, binary, paths, tag, timeout=1500):
     inp = {"ids": IDS, "roles": ROLES, "fns": FNS, "paths": []}
     for p in paths:
         setup = [] if p["init"]["admin"] == "none" else SETUP_S1
+        if p["init"].get("deleg") and p["init"]["deleg"]["B"]["r1"]["root"] != "none":
+            setup = SETUP_S1 + [dict(name="Delegate", id="A", to="B", role="r1", period=2, level=1, **OWN("A"))]
         inp["paths"].append({"setup": setup, "now": p["init"]["now"], "steps": [s["act"] for s in p["steps"]]})
     fin = os.path.join(ctx.scratch, "replay-%s.in.json" % tag)
     fout = os.path.join(ctx.scratch, "replay-%s.out.ndjson" % tag)
